@@ -22,7 +22,7 @@ contract(M + "_special_constraints_eq_zero", props=["C02"], trusted=True,
                   "implies(result, den(pcbo) - old(den(pcbo)) >= 0)",
                   "implies(result and bden(P) == 0, den(pcbo) == old(den(pcbo)))",
                   "implies(result and bden(P) != 0, den(pcbo) - old(den(pcbo)) >= lam)",
-                  "wf(pcbo)"],
+                  "wf(pcbo)", "pcbo._ancilla == old(pcbo._ancilla)"],
          note="syntactic special form a - b*c == 0 (reads key/value order of a two-term model): contract assumed, "
               "checked by the bounded stand-in (C02 special-form clauses)")
 
@@ -35,5 +35,80 @@ contract(M + "PCBO.add_constraint_eq_zero", props=["C02", "C06", "C19"],
          returns="param:self", modifies=["self"],
          ensures=[_F + " >= 0",
                   "implies(bden(P) == 0, %s == 0)" % _F,
-                  "implies(bden(P) != 0 and not warned_unsat(), %s >= lam)" % _F,
+                  "implies(bden(P) != 0, %s >= lam)" % _F,
+                  "self._ancilla == old(self._ancilla)",
                   "wf(self)", "result is self"])
+
+
+# ---------------------------------------------------------------------------------- logic gates (C06)
+OPK = ["label", "termdict", "model:PUBO", "model:PCBO"]
+
+
+def _ops(n):
+    combos = [("label",) * n]
+    for pos in range(n):
+        for k in ("termdict", "model:PUBO", "model:PCBO"):
+            c = ["label"] * n
+            c[pos] = k
+            combos.append(tuple(c))
+    return ["tuple:" + ",".join(c) for c in combos]
+
+
+def _gate(name, truth, arities, first=None):
+    """truth: spec expression (over `variables`, and `a` for eq-forms) that is 1 when the gate constraint holds"""
+    inst = []
+    for n in arities:
+        for ops in _ops(n):
+            if first is None:
+                inst.append({"self": "model:PCBO", "variables": ops, "lam": "real"})
+            else:
+                for ak in ("label", "model:PUBO"):
+                    inst.append({"self": "model:PCBO", "a": ak, "variables": ops, "lam": "real"})
+    allops = "variables" if first is None else "(a,) + variables"
+    contract(M + "PCBO." + name, props=["C06"],
+             instances=inst,
+             requires=["wf(self)", "lam > 0", "opsvalid(%s)" % allops, "all01(%s)" % allops,
+                       "distinct_from(self, %s)" % allops],
+             returns="param:self", modifies=["self"],
+             ensures=[_F + " >= 0",
+                      "implies(%s, %s == 0)" % (truth, _F),
+                      "implies(not (%s), %s >= lam)" % (truth, _F),
+                      "self._ancilla == old(self._ancilla)", "wf(self)", "result is self"])
+
+
+def _gate1(name, truth, two=False):
+    inst = []
+    for ak in OPK:
+        if two:
+            for bk in ("label", "model:PUBO"):
+                inst.append({"self": "model:PCBO", "a": ak, "b": bk, "lam": "real"})
+        else:
+            inst.append({"self": "model:PCBO", "a": ak, "lam": "real"})
+    allops = "(a, b)" if two else "(a,)"
+    contract(M + "PCBO." + name, props=["C06"],
+             instances=inst,
+             requires=["wf(self)", "lam > 0", "opsvalid(%s)" % allops, "all01(%s)" % allops,
+                       "distinct_from(self, %s)" % allops],
+             returns="param:self", modifies=["self"],
+             ensures=[_F + " >= 0",
+                      "implies(%s, %s == 0)" % (truth, _F),
+                      "implies(not (%s), %s >= lam)" % (truth, _F),
+                      "self._ancilla == old(self._ancilla)", "wf(self)", "result is self"])
+
+
+_gate("add_constraint_AND", "andf(variables) == 1", (1, 2, 3))
+_gate("add_constraint_OR", "orf(variables) == 1", (1, 2, 3))
+_gate("add_constraint_XOR", "xorf(variables) == 1", (1, 2, 3))
+_gate("add_constraint_NAND", "andf(variables) == 0", (1, 2, 3))
+_gate("add_constraint_NOR", "orf(variables) == 0", (1, 2, 3))
+_gate("add_constraint_XNOR", "xorf(variables) == 0", (1, 2, 3))
+_gate1("add_constraint_BUFFER", "opden(a) == 1")
+_gate1("add_constraint_NOT", "opden(a) == 0")
+_gate("add_constraint_eq_AND", "opden(a) == andf(variables)", (2, 3), first="a")
+_gate("add_constraint_eq_OR", "opden(a) == orf(variables)", (2, 3), first="a")
+_gate("add_constraint_eq_XOR", "opden(a) == xorf(variables)", (2, 3), first="a")
+_gate("add_constraint_eq_NAND", "opden(a) == 1 - andf(variables)", (2, 3), first="a")
+_gate("add_constraint_eq_NOR", "opden(a) == 1 - orf(variables)", (2, 3), first="a")
+_gate("add_constraint_eq_XNOR", "opden(a) == 1 - xorf(variables)", (2, 3), first="a")
+_gate1("add_constraint_eq_BUFFER", "opden(a) == opden(b)", two=True)
+_gate1("add_constraint_eq_NOT", "opden(a) == 1 - opden(b)", two=True)
